@@ -26,6 +26,8 @@ def to_float(tok):
     try:
         if tok == 'inf':
             return float('inf')
+        if tok == 'nan':
+            return float('nan')
         if tok.startswith('b') and tok[1:].isdigit():
             return struct.unpack('<d', struct.pack('<Q', int(tok[1:])))[0]
         if '/' in tok:
